@@ -10,3 +10,6 @@ import AioftpModel.Driver.Codec
 import AioftpModel.Model.FsMem
 import AioftpModel.Model.Session
 import AioftpModel.Driver.Session
+import AioftpModel.Lemmas.Session
+import AioftpModel.Properties.C03
+import AioftpModel.Properties.C05
